@@ -159,9 +159,12 @@ class ExcelOpxWrapper(ExcelWrapper):
         self._max_col_row = {}
 
     def max_col_row(self, sheet):
-        if sheet not in self._max_col_row:
-            worksheet = self.workbook[sheet]
-            self._max_col_row[sheet] = worksheet.max_column, worksheet.max_row
+        if not self._max_col_row:
+            # the used area of every sheet, taken before pycel reads from it:
+            # reading a blank cell beyond the used area creates it in openpyxl
+            for worksheet in self.workbook:
+                self._max_col_row[worksheet.title] = (
+                    worksheet.max_column, worksheet.max_row)
         return self._max_col_row[sheet]
 
     @property
@@ -250,6 +253,7 @@ class ExcelOpxWrapper(ExcelWrapper):
             self.workbook_dataonly = load_workbook(
                 self.filename, data_only=True)
         self.load_array_formulas()
+        self.max_col_row(self.workbook.active.title)
 
     def load_array_formulas(self):
         # expand array formulas
@@ -397,6 +401,7 @@ class ExcelOpxWrapperNoData(ExcelOpxWrapper):
         self.workbook = workbook
         self.workbook_dataonly = workbook
         self.load_array_formulas()
+        self.max_col_row(self.workbook.active.title)
 
     def get_range(self, address):
         data = super().get_range(address)
